@@ -15,7 +15,7 @@ import struct
 from ..core import hx, unhx, parallel_map
 
 DRIVERS = ["drv_edits"]
-GENERATED = ["AlignCosts", "HunkFlush"]
+GENERATED = ["AlignCosts", "HunkFlush", "EmphPaint"]
 
 REGEXES = [r"\w+", r".", r"\S+", r"[a-z]+|\d+"]
 EXTRA_REGEXES = [r"b*", r"\w"]          # empty matches; single-character tokens
@@ -656,7 +656,12 @@ def run(ctx, rep):
                 "over {'',a,b,' '} for the alignment table; random: code-like lines with Unicode, repeated tokens and "
                 "whitespace-only edits, and subhunks up to 6x6 under thresholds {0,0.3,0.6,1.0,random} x 4-6 regexes. "
                 "Non-trivial: tokenize: > 2 tokens; align: > 1 kind of operation; annotate: some emphasis; "
-                "infer: at least one pair and one unpaired line. Distinct by the full input.")
+                "infer: at least one pair and one unpaired line. Distinct by the full input. "
+                "Painted emphasis: one-subhunk diffs on the real binary with each of the 8 hunk styles supplied directly / by "
+                "reference to a user-defined name / to another option / through a chain, on the command line / in the [delta] "
+                "section of a --config file / in a custom feature (the two within-line styles cycle through all 12 combinations); "
+                "hook-level: style flags under references between options, chains and defaults. Non-trivial: emphasis displayed "
+                "(binary), a within-line style given by reference (flags).")
     rep.extra_trusted += [
         "unicode-segmentation / unicode-width / str::trim / regex spans: taken from the implementation per case "
         "(edits.domain); cases violating the DESIGN 3.1 domain conditions go to the oracle only",
@@ -669,6 +674,8 @@ def run(ctx, rep):
     run_cases(ctx, rep, cases)
     end_to_end(ctx, rep)
     end_to_end_hunks(ctx, rep)
+    end_to_end_supply(ctx, rep)
+    emph_flags_hook(ctx, rep)
 
 
 CORPUS = [
@@ -696,6 +703,10 @@ def replay(ctx, rep, obj):
     case = {k: v for k, v in case.items() if k not in ("got", "stderr")}
     if case.get("op") == "e2e-hunk":
         return end_to_end_hunks(ctx, rep, [([(k, t) for k, t in case["seq"]], case["max"], case["buf"])])
+    if case.get("op") == "e2e-supply":
+        return end_to_end_supply(ctx, rep, [(case["minus"], case["plus"], case["max"], case["plan"])])
+    if case.get("op") == "emph-flags":
+        return emph_flags_hook(ctx, rep, [case["plan"]])
     if case.get("op") == "e2e":
         body = "".join("-" + l + "\n" for l in case["minus"]) + "".join("+" + l + "\n" for l in case["plus"])
         diff = "diff --git a/f b/f\n--- a/f\n+++ b/f\n@@ -1,%d +1,%d @@\n" % (len(case["minus"]), len(case["plus"])) + body
@@ -789,14 +800,33 @@ def end_to_end(ctx, rep, jobs=None):
     def one(job):
         minus, plus, mx, diff = job
         return ctx.run_delta(E2E_ARGS + ["--max-line-distance", mx], diff.encode())
-    M, ME, MN = BG["minus"], BG["minus_emph"], BG["minus_non_emph"]
-    P, PE, PN, WE = BG["plus"], BG["plus_emph"], BG["plus_non_emph"], BG["ws_error"]
     for (minus, plus, mx, diff), (rc, out, err) in zip(jobs, parallel_map(one, jobs)):
         replay = dict(op="e2e", minus=minus, plus=plus, max=mx)
+        e2e_oracle(rep, replay, minus, plus, mx, rc, out, err, "e2e", "e2e")
+
+
+def viol(rep, sig, what, replay):
+    """`rep.violation`, once per signature (the report keeps at most 50 violations: a family that fails on every
+    case must not crowd out the others); every further hit is only counted."""
+    seen = rep.__dict__.setdefault("_c06_seen", set())
+    rep.count("violations:" + sig)
+    if sig in seen:
+        return False
+    seen.add(sig)
+    return rep.violation(sig, what, replay)
+
+
+def e2e_oracle(rep, replay, minus, plus, mx, rc, out, err, sig, fam):
+    """The C06 statement on what the real binary displays for one subhunk (`minus` then `plus`), decoded with
+    the palette `BG`. `sig`: prefix of violation signatures (names the input class), `fam`: key of the case
+    counters. Returns (decoded rows of removed lines, of added lines) or None when rows could not be decoded."""
+    M, ME, MN = BG["minus"], BG["minus_emph"], BG["minus_non_emph"]
+    P, PE, PN, WE = BG["plus"], BG["plus_emph"], BG["plus_non_emph"], BG["ws_error"]
+    if True:
         if rc != 0:
-            rep.violation("e2e:exit-status", f"delta exited with {rc}",
+            viol(rep, f"{sig}:exit-status", f"delta exited with {rc}",
                           dict(replay, stderr=err.decode("utf-8", "replace")[-300:]))
-            continue
+            return None
         rows = [decode_row(r) for r in out.decode("utf-8", "replace").split("\n")]
         mrows = [r for r in rows if any(bg in (M, ME, MN) for bg, _ in r)]
         prows = [r for r in rows if any(bg in (P, PE, PN, WE) for bg, _ in r)]
@@ -805,42 +835,48 @@ def end_to_end(ctx, rep, jobs=None):
             return "".join(ch for bg, ch in r if bg in cols)
         decoded = [vis(r, (M, ME, MN)) for r in mrows] == minus and [vis(r, (P, PE, PN, WE)) for r in prows] == plus
         emph_seen = any(bg in (ME, PE) for r in rows for bg, _ in r)
-        rep.case(key=("e2e", mx, tuple(minus), tuple(plus)), nontrivial=emph_seen,
+        rep.case(key=(fam, mx, tuple(minus), tuple(plus), repr(replay.get("plan"))), nontrivial=emph_seen,
                  sample=dict(replay, rows=len(rows)) if emph_seen else None)
-        rep.count("e2e:" + ("rows-decoded" if decoded else "rows-not-decoded"))
+        rep.count(fam + ":" + ("rows-decoded" if decoded else "rows-not-decoded"))
         if not decoded:
-            continue
+            return None
         # a line has a partner iff delta used the non-emph or emph style on it
         mp = [(k, r) for k, r in enumerate(mrows) if any(bg in (ME, MN) for bg, _ in r)]
         pp = [(k, r) for k, r in enumerate(prows) if any(bg in (PE, PN) for bg, _ in r)]
         # a plus line made of whitespace-error cells only cannot be classified: skip such cases
         if any(all(bg == WE for bg, _ in r if bg is not None) for r in prows):
-            rep.count("e2e:ws-error-only-line")
-            continue
+            rep.count(fam + ":ws-error-only-line")
+            return None
         for _, r in mp:
             if any(bg == M for bg, _ in r):
-                rep.violation("e2e:mixed-styles", "a removed line mixes the unpaired style with emph/non-emph", replay)
+                viol(rep, f"{sig}:mixed-styles", "a removed line mixes the unpaired style with emph/non-emph", replay)
         for _, r in pp:
             if any(bg == P for bg, _ in r):
-                rep.violation("e2e:mixed-styles", "an added line mixes the unpaired style with emph/non-emph", replay)
+                viol(rep, f"{sig}:mixed-styles", "an added line mixes the unpaired style with emph/non-emph", replay)
         if len(mp) != len(pp):
-            rep.violation("e2e:pair-count", "different numbers of paired removed and added lines are displayed", replay)
-            continue
-        rep.count("e2e:pairs=%d" % min(len(mp), 3))
+            viol(rep, f"{sig}:pair-count", "different numbers of paired removed and added lines are displayed", replay)
+            return None
+        rep.count(fam + ":pairs=%d" % min(len(mp), 3))
         for (ka, a), (kb, b) in zip(mp, pp):
             keep_a = vis(a, (MN,))
             keep_b = vis(b, (PN,))
             # whitespace-error cells are trailing whitespace (emphasised or not): compare modulo trailing blanks
             if rtrim_ws(keep_a) != rtrim_ws(keep_b):
-                rep.violation("e2e:unsound-emphasis",
-                              "displayed non-emphasised text differs between the two lines of a pair", replay)
+                if not any(bg == ME for bg, _ in a) and not any(bg == PE for bg, _ in b):
+                    viol(rep, f"{sig}:paired-differing-lines-not-emphasised",
+                                  "two paired lines differ but neither shows any emphasis (what is displayed as "
+                                  "unchanged is not common to both lines)", replay)
+                else:
+                    viol(rep, f"{sig}:unsound-emphasis",
+                                  "displayed non-emphasised text differs between the two lines of a pair", replay)
             if minus[ka] == plus[kb] and (any(bg == ME for bg, _ in a) or any(bg == PE for bg, _ in b)):
-                rep.violation("e2e:identical-lines-emphasised", "identical paired lines show emphasis", replay)
+                viol(rep, f"{sig}:identical-lines-emphasised", "identical paired lines show emphasis", replay)
         if float(mx) >= 1.0:
             want = list(range(min(len(minus), len(plus))))
             if [k for k, _ in mp] != want or [k for k, _ in pp] != want:
-                rep.violation("e2e:distance-one-not-positional",
+                viol(rep, f"{sig}:distance-one-not-positional",
                               "with max-line-distance >= 1 the displayed pairs are not (i, i)", replay)
+        return mrows, prows
 
 
 # --------------------------------------------------------------------------- end to end: subhunk formation
@@ -932,7 +968,7 @@ def end_to_end_hunks(ctx, rep, jobs=None):
     for (seq, mx, buf), (rc, out, err), blocks in zip(jobs, outs, parsed_blocks if mdl else [None] * len(jobs)):
         replay = dict(op="e2e-hunk", seq=[[k, t] for k, t in seq], max=mx, buf=buf)
         if rc != 0:
-            rep.violation("e2e:exit-status", f"delta exited with {rc}",
+            viol(rep, "e2e:exit-status", f"delta exited with {rc}",
                           dict(replay, stderr=err.decode("utf-8", "replace")[-300:]))
             if blocks:
                 for _ in blocks:
@@ -984,21 +1020,334 @@ def end_to_end_hunks(ctx, rep, jobs=None):
         for k, t, pd, r in rows:       # the j-th displayed row of a kind is the j-th input line of that kind
             pos.append(where[k][nxt[k]]); nxt[k] += 1
         if pos != sorted(pos):
-            rep.violation("e2e:rows-out-of-input-order", "hunk lines are not displayed in input order", replay)
+            viol(rep, "e2e:rows-out-of-input-order", "hunk lines are not displayed in input order", replay)
         pm = [(p_, r) for p_, (k, t, pd, r) in zip(pos, rows) if k == "-" and pd]
         ppl = [(p_, r) for p_, (k, t, pd, r) in zip(pos, rows) if k == "+" and pd]
         if len(pm) != len(ppl):
-            rep.violation("e2e:pair-count", "different numbers of paired removed and added lines are displayed", replay)
+            viol(rep, "e2e:pair-count", "different numbers of paired removed and added lines are displayed", replay)
             continue
         for (m_, ra), (p_, rb) in zip(pm, ppl):
             kinds = [k for k, _ in seq]
             between = kinds[min(m_, p_):max(m_, p_) + 1]
             if not (m_ < p_) or " " in between or any(a == "+" and b == "-" for a, b in zip(between, between[1:])):
-                rep.violation("e2e:pair-across-subhunk-boundary",
+                viol(rep, "e2e:pair-across-subhunk-boundary",
                               "a removed and an added line are paired although the added line comes first, or a context "
                               "line / an added->removed boundary lies between them", dict(replay, pair=[m_, p_]))
             ka = "".join(ch for bg, ch in ra if bg == MN)
             kb = "".join(ch for bg, ch in rb if bg == PN)
             if rtrim_ws(ka) != rtrim_ws(kb):
-                rep.violation("e2e:unsound-emphasis",
+                viol(rep, "e2e:unsound-emphasis",
                               "displayed non-emphasised text differs between the two lines of a pair", replay)
+
+
+# --------------------------------------------------------------------------- emphasis for every way a style is supplied
+#
+# `infer_edits` annotates sections with styles; whether a section is *displayed* emphasised is decided by
+# Painter::update_diff_style_sections (sections whose style lacks `is_emph` are repainted non-emph on paired
+# lines) and by where parse_styles() sets `is_emph` (src/parse_styles.rs). Both are in the Lean model
+# (DeltaModel/EmphPaint.lean, tables regenerated into Generated/EmphPaint.lean); here the styles reach delta
+# in every way the option machinery allows, and the C06 statement is evaluated on what is displayed.
+
+ROLES = [("minus-style", BG["minus"]), ("minus-emph-style", BG["minus_emph"]), ("minus-non-emph-style", BG["minus_non_emph"]),
+         ("plus-style", BG["plus"]), ("plus-emph-style", BG["plus_emph"]), ("plus-non-emph-style", BG["plus_non_emph"]),
+         ("zero-style", BG["zero"]), ("whitespace-error-style", BG["ws_error"])]
+EMPH_ROLES = ("minus-emph-style", "plus-emph-style")
+# options that play no part in rendering a plain diff: they carry a style that a hunk style refers to
+CARRIERS = ["inline-hint-style", "grep-file-style", "grep-line-number-style", "line-numbers-minus-style",
+            "line-numbers-plus-style", "line-numbers-zero-style", "line-numbers-left-style", "line-numbers-right-style"]
+SUPPLY_KINDS = ["direct", "ref-user", "ref-option", "ref-chain"]
+SUPPLY_PLACES = ["cli", "main", "feature"]
+SUPPLY_BASE_ARGS = ["--syntax-theme", "none", "--file-style", "omit", "--hunk-header-style", "omit", "--width", "variable",
+                    "--true-color", "never", "--tabs", "0"]
+
+
+def supply_plan(rng, k):
+    """How each of the eight hunk styles reaches delta. Per role: [kind, place, carrier place]:
+    kind `direct` (a style string), `ref-user` (a reference to a user-defined name of the [delta] section),
+    `ref-option` (a reference to another delta option that holds the style), `ref-chain` (option -> option ->
+    user-defined name); place = where the role's own option is written: command line, [delta] section of the
+    --config file, or a custom feature's section. The two within-line styles cycle through all kinds x places
+    (job number `k`), the others are drawn at random."""
+    roles = {}
+    combos = [(a, b) for a in SUPPLY_KINDS for b in SUPPLY_PLACES]
+    for i, (name, _) in enumerate(ROLES):
+        if name == "minus-emph-style":
+            kind, place = combos[k % len(combos)]
+        elif name == "plus-emph-style":
+            kind, place = combos[(k // len(combos) + k * 5 + 7) % len(combos)] if k % 3 else ("direct", rng.choice(SUPPLY_PLACES))
+        else:
+            kind = rng.choice(["direct", "direct", "ref-user", "ref-option", "ref-chain"])
+            place = rng.choice(SUPPLY_PLACES)
+        roles[name] = [kind, place, rng.choice(SUPPLY_PLACES)]
+    return dict(roles=roles, feature_on=rng.choice(["cli", "main"]))
+
+
+def supply_class(plan):
+    """Input class named in violation signatures: is a within-line style given as a reference?"""
+    return "emph-by-reference" if any(plan["roles"][r][0] != "direct" for r in EMPH_ROLES) else "emph-direct"
+
+
+def supply_materialise(plan):
+    """(command-line args, text of the --config file, model `supplied`, model `git`) of a plan."""
+    args, main, feat, sup, git = [], [], [], [], []
+
+    def put(place, opt, val):
+        if place == "cli":
+            args.extend(["--" + opt, val])
+        elif place == "main":
+            main.append(f"    {opt} = {val}")
+        else:
+            feat.append(f"    {opt} = {val}")
+    for i, (name, look) in enumerate(ROLES):
+        kind, place, cplace = plan["roles"][name]
+        style = f"normal {look}"
+        if kind == "direct":
+            put(place, name, style); sup.append(f"{name}=D{look}")
+        elif kind == "ref-user":
+            user = f"vx-{name[:-6]}-word-style"
+            put(place, name, user); main.append(f"    {user} = {style}")
+            sup.append(f"{name}=R{user}"); git.append(f"{user}={look}")
+        elif kind == "ref-option":
+            put(place, name, CARRIERS[i]); put(cplace, CARRIERS[i], style)
+            sup += [f"{name}=R{CARRIERS[i]}", f"{CARRIERS[i]}=D{look}"]
+        else:
+            user = f"vc-{i}-style"
+            put(place, name, CARRIERS[i]); put(cplace, CARRIERS[i], user); main.append(f"    {user} = {style}")
+            sup += [f"{name}=R{CARRIERS[i]}", f"{CARRIERS[i]}=R{user}"]; git.append(f"{user}={look}")
+    if feat:
+        if plan["feature_on"] == "cli":
+            args.extend(["--features", "vfeat"])
+        else:
+            main.append("    features = vfeat")
+    text = "[delta]\n" + "\n".join(main) + "\n"
+    if feat:
+        text += '[delta "vfeat"]\n' + "\n".join(feat) + "\n"
+    return args, text, ",".join(sup), (",".join(git) or "-")
+
+
+def emph_model(ctx):
+    """The model side of the `emph.*` ops: DeltaModel/EmphPaintProto.lean, interpreted (`lean --run`) until a
+    lean_exe is registered for it."""
+    import os
+    from ..core import LEAN, LineProc, lake_build
+    ok, _ = lake_build(["DeltaModel.EmphPaint", "DeltaModel.Proto"])
+    if not ok or not os.path.exists(os.path.join(LEAN, "DeltaModel", "EmphPaintProto.lean")):
+        return None
+    return LineProc(["lake", "env", "lean", "--run", "DeltaModel/EmphPaintProto.lean"], cwd=LEAN)
+
+
+def parse_infer_lines(v):
+    n, _, body = v.partition(";")
+    return [parse_sections(x) for x in body.split("|")] if int(n) > 0 else []
+
+
+def end_to_end_supply(ctx, rep, jobs=None):
+    """Real binary; the hunk styles arrive directly or as references, from the command line, the [delta] section
+    of a --config file or a custom feature. Direct oracle: the C06 statement on the decoded rows (`e2e_oracle`),
+    and: the characters displayed emphasised are exactly those of the sections `infer_edits` annotated as changed
+    (hooked `edits.infer` on the same lines), trailing whitespace aside. Correspondence `e2e.paint`: the
+    displayed style of every character against the model (`emph.line`: parse_styles -> Config ->
+    update_diff_style_sections) fed with that annotation."""
+    import os
+    from ..core import BUILD, sha
+    rng = ctx.rng
+    if jobs is None:
+        jobs = []
+        for k in range(ctx.n(144, 6000)):
+            minus, plus, mx, _ = e2e_job(rng)
+            jobs.append((minus, plus, mx, supply_plan(rng, k)))
+    cdir = os.path.join(BUILD, "c06-supply", str(os.getpid()))     # per process: concurrent checks of other trees
+    os.makedirs(cdir, exist_ok=True)
+    mats = [supply_materialise(plan) for _, _, _, plan in jobs]
+
+    def one(jm):
+        (minus, plus, mx, plan), (args, text, _, _) = jm
+        path = os.path.join(cdir, sha(text)[:16] + ".gitconfig")
+        if not os.path.exists(path):
+            with open(path + ".%d" % os.getpid(), "w") as f:
+                f.write(text)
+            os.replace(path + ".%d" % os.getpid(), path)
+        body = "".join("-" + l + "\n" for l in minus) + "".join("+" + l + "\n" for l in plus)
+        diff = "diff --git a/f b/f\n--- a/f\n+++ b/f\n@@ -1,%d +1,%d @@\n" % (len(minus), len(plus)) + body
+        return ctx.run_delta(["--config", path] + SUPPLY_BASE_ARGS + ["--max-line-distance", mx] + args, diff.encode())
+    outs = parallel_map(one, list(zip(jobs, mats)))
+    for f in os.listdir(cdir):           # the config files are rebuilt from the plan by a replay
+        try:
+            os.remove(os.path.join(cdir, f))
+        except OSError:
+            pass
+    try:
+        os.rmdir(cdir)
+    except OSError:
+        pass
+    # the implementation's own annotation of the same lines
+    reqs = []
+    for minus, plus, mx, plan in jobs:
+        parts = [f"edits.infer {hx(chr(92) + 'w+')} {mx} 0.0 {D} {I}", str(len(minus))]
+        for l in minus:
+            parts += [hx(l + "\n"), str(ND), "L;"]
+        parts.append(str(len(plus)))
+        for l in plus:
+            parts += [hx(l + "\n"), str(NI), "L;"]
+        reqs.append(" ".join(parts))
+    infer = ask_parallel(ctx.hook, reqs)
+    mdl = emph_model(ctx) if ctx.drivers_ok else None
+    M, ME, MN = BG["minus"], BG["minus_emph"], BG["minus_non_emph"]
+    P, PE, PN, WE = BG["plus"], BG["plus_emph"], BG["plus_non_emph"], BG["ws_error"]
+    pending = []      # (job index, side, line index, sections, homolog, decoded row)
+    for k, ((minus, plus, mx, plan), (args, text, sup, git), (rc, out, err), ians) in enumerate(zip(jobs, mats, outs, infer)):
+        cls = supply_class(plan)
+        replay = dict(op="e2e-supply", minus=minus, plus=plus, max=mx, plan=plan, args=args, config=text)
+        rep.count("e2e-supply:" + cls)
+        for r in EMPH_ROLES:
+            rep.count("e2e-supply:%s:%s@%s" % (r, plan["roles"][r][0], plan["roles"][r][1]))
+        got = e2e_oracle(rep, replay, minus, plus, mx, rc, out, err, "e2e-supply:" + cls, "e2e-supply")
+        if got is None or not ians.startswith("ok"):
+            continue
+        mrows, prows = got
+        kv = parse_kv(ians)
+        am, ap = parse_infer_lines(kv["M"]), parse_infer_lines(kv["P"])
+        hm, hp = kv["H"].split(":")
+        if len(am) != len(minus) or len(ap) != len(plus):
+            continue
+        for side, secs_l, rows, hs, emph_tag, cols, ecol in (("Minus", am, mrows, hm, D, (M, ME, MN), ME),
+                                                             ("Plus", ap, prows, hp, I, (P, PE, PN, WE), PE)):
+            for li, (secs, row, h) in enumerate(zip(secs_l, rows, hs)):
+                cells = [(bg, ch) for bg, ch in row if bg in cols]
+                # annotated ranges: characters of the sections tagged as changed, the line's trailing whitespace aside
+                text_l = "".join(t for _, t in secs)
+                body_len = len(rtrim_ws(text_l))
+                want, pos = [], 0
+                for tag, t in secs:
+                    for ch in t:
+                        if pos < body_len:
+                            want.append(tag == emph_tag)
+                        pos += 1
+                shown = [bg == ecol for bg, _ in cells][:body_len]
+                if h == "1" and shown != want:
+                    missing = sum(1 for a, b in zip(want, shown) if a and not b)
+                    viol(rep, f"e2e-supply:{cls}:" + ("annotated-change-not-emphasised" if missing else "emphasis-outside-annotated-change"),
+                                  "on a paired line the characters displayed with the within-line style are not exactly those "
+                                  "of the sections infer_edits annotated as changed",
+                                  dict(replay, side=side, line=li, annotated="".join("^" if w else "." for w in want),
+                                       displayed="".join("^" if w else "." for w in shown)))
+                if h == "0" and any(shown):
+                    viol(rep, f"e2e-supply:{cls}:unpaired-line-emphasised", "a line without partner shows emphasis",
+                                  dict(replay, side=side, line=li))
+                pending.append((k, side, li, secs, h, cells, sup, git, emph_tag, replay))
+    if mdl is not None and pending:
+        mreq = []
+        for k, side, li, secs, h, cells, sup, git, emph_tag, replay in pending:
+            ss = ",".join(("E" if tag == emph_tag else "N") + ("1" if trim_ws(t) == "" else "0") for tag, t in secs) or "-"
+            mreq.append(f"emph.line {side} {sup} {git} {h} {ss}")
+        mans = mdl.ask(mreq, timeout=600)
+        for (k, side, li, secs, h, cells, sup, git, emph_tag, replay), req, ans in zip(pending, mreq, mans):
+            pred = None
+            if ans.startswith("ok"):
+                looks = [int(x.split(":")[0]) for x in ans[3:].split(",")] if len(ans) > 3 else []
+                if len(looks) == len(secs):
+                    pred = [(lk, ch) for lk, (_, t) in zip(looks, secs) for ch in t]
+                    while pred and pred[-1][1] == "\n":
+                        pred.pop()
+            rep.corr_case("e2e.paint", pred == cells,
+                          dict(case=dict(replay, side=side, line=li), request=req, model=ans,
+                               impl="".join("%s:%s " % (bg, ch) for bg, ch in cells)))
+
+
+def emph_flags_hook(ctx, rep, plans=None):
+    """Correspondence `emph.parse_styles` (hooked `style.config_style` against the model's `parse_styles`): the
+    hunk styles are given on the command line directly, as references to other options (carriers, other hunk
+    styles, chains of them) or left at their defaults; compared per style: what it looks like (background) and
+    the `is_emph` flag. Direct oracle on the flag: the two within-line styles carry it, no other hunk style does."""
+    rng = ctx.rng
+    names = [n for n, _ in ROLES]
+    if plans is None:
+        plans = []
+        for k in range(ctx.n(120, 3000)):
+            vals = {}
+            for i, (name, look) in enumerate(ROLES):
+                r = rng.random()
+                if name in EMPH_ROLES:
+                    r = (k % 5) / 5.0 + 0.01 if name == "minus-emph-style" else ((k // 5) % 5) / 5.0 + 0.01
+                if r < 0.2:
+                    vals[name] = ["D", look]
+                elif r < 0.4:
+                    vals[name] = ["R", CARRIERS[i]]; vals[CARRIERS[i]] = ["D", look]
+                elif r < 0.6:      # chain of two options
+                    j = (i + 1) % len(CARRIERS)
+                    vals[name] = ["R", CARRIERS[i]]; vals[CARRIERS[i]] = ["R", "blame-code-style"]
+                    vals["blame-code-style"] = ["D", look + 100]
+                elif r < 0.8:      # another hunk style (direct there)
+                    other = rng.choice([n for n in names if n != name])
+                    vals[name] = ["R", other]
+                else:
+                    if name.endswith("non-emph-style"):
+                        vals[name] = ["default"]
+                    else:
+                        vals[name] = ["D", look]
+            # references to hunk styles must end in a directly given style (no cycles, no chains through defaults)
+            for name in names:
+                v = vals[name]
+                if v[0] == "R" and v[1] in names and vals[v[1]][0] != "D":
+                    vals[v[1]] = ["D", dict(ROLES)[v[1]]]
+            plans.append(vals)
+    hook_reqs, sticky, idx = [], [], []
+    for vals in plans:
+        cfg = []
+        for opt, v in vals.items():
+            if v[0] == "D":
+                cfg += ["--" + opt, f"normal {v[1]}"]
+            elif v[0] == "R":
+                cfg += ["--" + opt, v[1]]
+        sticky.append(len(hook_reqs))
+        hook_reqs.append("cfg " + " ".join(hx(a) for a in cfg))
+        idx.append(len(hook_reqs))
+        hook_reqs += [f"style.config_style {n}" for n in names]
+    hans = ctx.hook().ask(hook_reqs, sticky=sticky)
+    mdl = emph_model(ctx) if ctx.drivers_ok else None
+    mreq = []
+    for vals in plans:
+        sup = []
+        for opt, v in vals.items():
+            if v[0] == "D":
+                sup.append(f"{opt}=D{v[1]}")
+            elif v[0] == "R":
+                sup.append(f"{opt}=R{v[1]}")
+            else:       # default of the non-emph styles: a reference to the side's plain style
+                sup.append(f"{opt}=R{opt.replace('-non-emph', '')}")
+        mreq.append("emph.parse " + ",".join(sup) + " -")
+    mans = mdl.ask(mreq, timeout=600) if mdl is not None else [None] * len(plans)
+    for vals, i0, ma, mr in zip(plans, idx, mans, mreq):
+        impl = {}
+        for n, a in zip(names, hans[i0:i0 + len(names)]):
+            f = a.split(" ")
+            if f[0] == "ok" and len(f) >= 4:
+                bg = f[1].split(":")[1]
+                # `b<n>`: one of the 8 named colours (numbers 0..7 parse to them), `f<n>`: 256-colour palette
+                impl[n] = (int(bg[1:]) if bg[:1] in ("f", "b") and bg[1:].isdigit() else bg, f[2][0] == "1")
+            else:
+                impl[n] = ("?", a[:40])
+        kinds = {n: ("ref" if vals[n][0] != "D" else "direct") for n in EMPH_ROLES}
+        cls = "emph-" + "+".join(sorted(set(kinds.values())))
+        replay = dict(op="emph-flags", plan=vals)
+        rep.case(key=("emph-flags", repr(sorted(vals.items()))), nontrivial=cls != "emph-direct",
+                 sample=dict(replay, impl={n: list(v) for n, v in impl.items()}) if cls != "emph-direct" else None)
+        rep.count("emph-flags:" + cls)
+        for n in names:
+            flag = impl[n][1]
+            how = "style-direct" if vals[n][0] == "D" else ("style-by-default" if vals[n][0] == "default" else "style-by-reference")
+            if n in EMPH_ROLES and flag is False:
+                viol(rep, f"emph-flags:{how}:within-line-style-without-flag",
+                     f"{n} does not carry is_emph: paired lines cannot show emphasis with it", dict(replay, style=n))
+            if n not in EMPH_ROLES and flag is True:
+                viol(rep, f"emph-flags:{how}:flag-on-other-style",
+                     f"{n} carries is_emph: it is never replaced by the non-emph style", dict(replay, style=n))
+        if ma is not None:
+            model = {}
+            if ma.startswith("ok"):
+                for e in ma[3:].split(","):
+                    kk, _, v = e.partition("=")
+                    lk, _, fl = v.partition(":")
+                    model[kk] = (int(lk), fl == "1")
+            rep.corr_case("emph.parse_styles", all(model.get(n) == impl[n] for n in names),
+                          dict(case=replay, request=mr, model=ma, impl={n: list(v) for n, v in impl.items()}))
